@@ -335,6 +335,37 @@ impl Prop for C05 {
         if cov.samples.len() < 4 && s.status != Status::Success {
             cov.sample(serde_json::json!({"scenario": sc.summary(), "status": status_name(s.status), "requested": te.len(), "reported": s.t.len(), "stopping_point": stop}));
         }
+        // accepted-step grid (from the twin without t_eval): the handler emits a requested time in
+        // the first step whose end + 1e-12 reaches it, i.e. it may *extrapolate* a step by up to
+        // 1e-12. When that distance is not small against the step itself (steps near 1e-12) the
+        // extrapolated value is not the value of the containing step's interpolant; such samples are
+        // excluded from the value clause (documented absolute slack), and counted.
+        let mut grid: Vec<f64> = Vec::new();
+        {
+            let mut g = d1.clone();
+            g.t_eval = None;
+            let gr = run_high(&g, false);
+            cov.note_high(&gr);
+            if let (Verdict::Returned, Some(gs)) = (&gr.verdict, &gr.sol) {
+                if gs.naccpt == s.naccpt && gs.status == s.status {
+                    grid = gs.t.clone();
+                }
+            }
+        }
+        let extrapolated = |tau: f64| -> bool {
+            if grid.len() < 2 {
+                return true;
+            }
+            // first accepted endpoint g_k (k >= 1) with tau <= g_k + 1e-12 in the direction
+            for k in 1..grid.len() {
+                if (grid[k] - tau) * dir >= -1.000001e-12 {
+                    let d = (tau - grid[k]) * dir;
+                    let hk = (grid[k] - grid[k - 1]).abs();
+                    return d > 1e-3 * hk;
+                }
+            }
+            false
+        };
         // values: the interpolant of the same run
         if let Some((a, b)) = s.sol_span() {
             let (lo, hi) = (a.min(b), a.max(b));
@@ -346,6 +377,10 @@ impl Prop for C05 {
                     continue;
                 }
                 if let Ok(yy) = s.sol(tau) {
+                    if extrapolated(tau) {
+                        cov.bump("values.slack_extrapolation_skipped");
+                        continue;
+                    }
                     if !all_finite(&yy) || !all_finite(&s.y[i]) {
                         cov.bump("values.nonfinite_pair_skipped");
                         continue;
